@@ -30,7 +30,43 @@ def describe(op, state):
     return "%s on %s" % (op, state)
 
 
+def check_blind(case, acc):
+    """Read-free history: outcomes of every call and the final forest vs the closed-form model."""
+    family = mut.family_of(case["cls"])
+    records, universe, rec = mut.run_blind(case)
+    state = mut.all_roots(case["n"])
+    ops = [s["op"] for s in case["steps"]]
+    changed = refused = 0
+    comparable = True
+    for op, exc, _ in records:
+        verdict, new = mut.spec(state, op, family)
+        ctx = "%s on model state %s (history without intermediate reads: %s)" % (op, state, ops)
+        if verdict == "ok":
+            if exc is not None:
+                raise Violation("spurious-refusal", "%s raised %s: %s" % (ctx, type(exc).__name__, exc))
+            changed += new != state
+            state = new
+        else:
+            if exc is None:
+                raise Violation("missing-refusal", "%s must raise %s but succeeded" % (ctx, new))
+            if type(exc).__name__ != new:
+                raise Violation("refusal-class", "%s must raise %s, raised %s" % (ctx, new, type(exc).__name__))
+            refused += 1
+            if op[0] == "children" and new == "LoopError":
+                comparable = False  # stolen children may be stranded (KF-C03-3): model state unknown from here
+                break
+    if comparable:
+        final = mut.snapshot(universe, rec.labels)
+        if final != state:
+            raise Violation("effect", "history %s (no intermediate reads) ends in %s, closed-form model %s" % (ops, final, state))
+    acc.nontrivial(changed >= 1 and len(records) >= 2)
+    acc.tag("blind_histories")
+    acc.tag("steps", len(records))
+
+
 def check_case(case, acc):
+    if case.get("kind") == "blind":
+        return check_blind(case, acc)
     if case.get("kind") == "construct":
         return check_construct(case, acc)
     family = mut.family_of(case["cls"])
@@ -170,6 +206,12 @@ def plan(tier, seed):
     examples = 150 if tier == "quick" else 800
     for i in range(nshards):
         tasks.append({"engine": "hyp", "examples": examples, "seed": seed * 1000 + i})
+        tasks.append({"engine": "blind-hyp", "examples": examples, "seed": seed * 1000 + 300 + i})
+    for spec in ("Node", "SlotLM", "AnyNode", "SymlinkNode"):
+        for n, length in ([(2, 3), (3, 2)] if tier == "quick" else [(2, 4), (3, 3)]):
+            shards = 4 if (n, length) == (2, 3) else nshards
+            for i in range(shards):
+                tasks.append({"engine": "blind-enum", "spec": spec, "n": n, "length": length, "index": i, "count": shards})
     return tasks
 
 
@@ -193,6 +235,16 @@ def random_cases(draw):
 
 
 def run_task(task, acc):
+    if task["engine"] == "blind-enum":
+        return acc.run_enum(check_case, mut.blind_sequences(task["spec"], task["n"], task["length"], task["index"], task["count"]))
+    if task["engine"] == "blind-hyp":
+        @st.composite
+        def blind(draw):
+            spec = draw(st.sampled_from(CLASS_SPECS))
+            hist = draw(mut.history_strategy(max_nodes=6, max_steps=20, faults="none", invalid=False, class_specs=[spec]))
+            return {"kind": "blind", "cls": spec, "n": hist["n"], "steps": [{"op": s["op"]} for s in hist["steps"]]}
+
+        return acc.run_hypothesis(check_case, blind(), task["examples"], task["seed"])
     if task["engine"] == "enum":
         family = mut.family_of(task["spec"])
         cases = mut.enum_fault_cases(task["spec"], task["n"], task["index"], task["count"], invalid=True, maxlen=task["maxlen"], routes=task.get("routes"))
